@@ -506,6 +506,7 @@ def run(ctx):
     systematic_const_dtypes(ctx)
     systematic_utp_class(ctx)
     systematic_neutral(ctx)
+    systematic_narrow_scalars(ctx)
     for i in range(n):
         case = gen_pow(ctx.rng, ctx.tier) if i % 6 == 5 else gen_case(ctx.rng, ctx.tier)
         ctx.evaluations += 1
@@ -580,6 +581,31 @@ def systematic_neutral(ctx):
                     case = {'op': opn, 'form': 'inplace' if side == 'inplace' else 'bin', 'D': D, 'P': P, 'l': U_, 'r': S_}
                 ctx.evaluations += 1
                 ctx.count('neutral-scalar')
+                res = run_case(ctx, case)
+                if res is not None:
+                    ctx.report(case, 'failure', res)
+
+
+def systematic_narrow_scalars(ctx):
+    """every operator with a narrow NumPy scalar (float32 / float16 / complex64) whose reciprocal is not representable in its own
+    type, on either side, binary and in-place (the scalar counts as a double / complex double constant)"""
+    rng = ctx.rng
+    for opn in ('add', 'sub', 'mul', 'div'):
+        for sk, v in (('np.float32', 3.0), ('np.float16', 3.0), ('np.float32', -6.0), ('np.float16', 5.0), ('np.complex64', complex(3.0, 0.5))):
+            for side in ('US', 'SU', 'inplace'):
+                if side == 'inplace' and sk == 'np.complex64':
+                    continue
+                D, P = rng.randint(1, 3), rng.randint(1, 2)
+                x = rand_coeffs(rng, (D, P, 2), -2, 2)
+                x[0] = c01.gen_x0(rng, 'nz', (P, 2), False)
+                S_ = {'k': 'S', 'sk': sk, 'v': v}
+                U_ = {'k': 'U', 'v': x}
+                if side == 'SU':
+                    case = {'op': opn, 'form': 'bin', 'D': D, 'P': P, 'l': S_, 'r': U_}
+                else:
+                    case = {'op': opn, 'form': 'inplace' if side == 'inplace' else 'bin', 'D': D, 'P': P, 'l': U_, 'r': S_}
+                ctx.evaluations += 1
+                ctx.count('narrow-scalar')
                 res = run_case(ctx, case)
                 if res is not None:
                     ctx.report(case, 'failure', res)
